@@ -256,6 +256,43 @@ pub fn run_box_case(bytes: &[u8]) -> (Vec<String>, bool, Vec<u32>) {
                     2 => conv!(3),
                     _ => conv!(5),
                 }
+                // and the other direction: a boxed array of N zero-sized elements becomes a boxed slice of N elements
+                // (zero bytes is not zero elements), without running a destructor on the way
+                macro_rules! arr_to_slice {
+                    ($n:expr) => {{
+                        let sa: BBox<[Zs<0>; $n]> = BBox::new_in(std::array::from_fn(|_| Zs::new()), b);
+                        let ta: Box<[Zs<1>; $n]> = Box::new(std::array::from_fn(|_| Zs::new()));
+                        let before = (z_counts(0), z_counts(1));
+                        let ss: BBox<[Zs<0>]> = sa.into();
+                        let ts: Box<[Zs<1>]> = ta;
+                        if (z_counts(0), z_counts(1)) != before {
+                            cx.v(format!("Box<[Zst; {}]> -> Box<[Zst]> ran destructors or created values: {:?} -> {:?}", $n, before, (z_counts(0), z_counts(1))));
+                        }
+                        if ss.len() != ts.len() {
+                            cx.v(format!("Box<[Zst; {}]> -> Box<[Zst]> has length {} instead of {}", $n, ss.len(), ts.len()));
+                        }
+                        if g(4) & 1 == 0 {
+                            if BBox::<[Zs<0>; $n]>::try_from(ss).is_err() {
+                                cx.v(format!("Box<[Zst; {}]> -> Box<[Zst]> -> Box<[Zst; {}]> does not round-trip", $n, $n));
+                            }
+                            drop(ts);
+                        } else {
+                            drop(ss);
+                            drop(ts);
+                        }
+                    }};
+                }
+                match g(5) % 4 {
+                    0 => arr_to_slice!(0),
+                    1 => arr_to_slice!(1),
+                    2 => arr_to_slice!(3),
+                    _ => arr_to_slice!(7),
+                }
+                let unit: BBox<[(); 4]> = BBox::new_in([(); 4], b);
+                let unit: BBox<[()]> = unit.into();
+                if unit.len() != 4 {
+                    cx.v(format!("Box<[(); 4]> -> Box<[()]> has length {}", unit.len()));
+                }
                 let (zm, zd) = z_counts(0);
                 let (tm, td) = z_counts(1);
                 if (zm, zd) != (tm, td) {
